@@ -4,13 +4,17 @@
  * this contract, what was passed and returned, so that a caller's postcondition can say "the
  * longitude enters only through AngNormalize" (periodicity in 360 is then inherited, not assumed). */
 /*@ ghost */
+#ifndef VERIF_ANGNORM_EXACT
+#define VERIF_ANGNORM_EXACT 4503599627370496.0
+#define VERIF_ANGNORM_WIDE double
+#endif
 double g_AngNormalize_arg, g_AngNormalize_ret; unsigned g_AngNormalize_calls;
 /*@ ghost-init */
 g_AngNormalize_calls = 0;
 /*@ ghost */
 /* spec: r is the IEEE remainder of x by 360 for |x| < 2^52, witnessed by the integer k */
 /*@ clause frame src=property props=C14 only=enforce */
-__CPROVER_assigns()
+__CPROVER_assigns(vm_last_k)
 /*@ clause frame.ghost src=ghost only=replace */
 __CPROVER_assigns(g_AngNormalize_arg, g_AngNormalize_ret, g_AngNormalize_calls)
 /*@ clause post.ghost src=ghost only=replace */
@@ -26,3 +30,9 @@ __CPROVER_ensures(isnan(__CPROVER_return_value) || (-180.0 <= __CPROVER_return_v
 __CPROVER_ensures(!(fabs(x) <= 180.0) || (__CPROVER_return_value == x && signbit(__CPROVER_return_value) == signbit(x)))
 /*@ clause post.sign src=property props=C16 */
 __CPROVER_ensures(!(__CPROVER_return_value == 0 || fabs(__CPROVER_return_value) == 180.0) || signbit(__CPROVER_return_value) == signbit(x))
+/*@ clause post.equivalent src=property props=C16 only=enforce */
+/* "an equivalent angle": for |x| < 2^52 the result differs from x by exactly 360 k for the integer k chosen by the
+   (exact) remainder model, except that -180 may be returned as +180 or vice versa (sign of x) */
+__CPROVER_ensures(!(fabs(x) < VERIF_ANGNORM_EXACT) ||
+                  (x - 360.0 * (VERIF_ANGNORM_WIDE)vm_last_k == __CPROVER_return_value) ||
+                  (fabs(__CPROVER_return_value) == 180.0 && fabs(x - 360.0 * (VERIF_ANGNORM_WIDE)vm_last_k) == 180.0))
